@@ -10,16 +10,33 @@ namespace vf {
 // ---- module cache: one module per (N, type, cfg) ----
 struct ModKey { uint64_t n; int type; int avx2, fma; bool operator<(const ModKey& o) const {
   return std::tie(n, type, avx2, fma) < std::tie(o.n, o.type, o.avx2, o.fma); } };
+inline std::map<const MODULE*, std::vector<std::pair<uint8_t*, size_t>>>& module_blocks() {
+  static std::map<const MODULE*, std::vector<std::pair<uint8_t*, size_t>>> m;
+  return m;
+}
 inline MODULE* get_module(uint64_t n, MODULE_TYPE t, const CpuCfg& cfg) {
   static std::map<ModKey, MODULE*> cache;
   ModKey k{n, (int)t, cfg.avx2, cfg.fma};
   auto it = cache.find(k);
   if (it != cache.end()) return it->second;
   set_cfg(cfg);
+  AllocTrack& at = alloc_track();
+  int n0 = at.n, on0 = at.on;
+  at.on = 1;
   MODULE* m = new_module_info(n, t);
+  at.on = on0;
+  std::vector<std::pair<uint8_t*, size_t>> blocks;
+  for (int i = n0; i < at.n; ++i) if (at.rec[i].live) blocks.push_back({(uint8_t*)at.rec[i].p, at.rec[i].size});
+  module_blocks()[m] = blocks;
   set_cfg(CFG_NATIVE);
   cache[k] = m;
   return m;
+}
+// content hash of every block the library allocated for this module (MODULE struct and all tables)
+inline uint64_t module_hash(const MODULE* m) {
+  uint64_t h = 0xcbf29ce484222325ull;
+  for (auto& b : module_blocks()[m]) h = fnv(b.first, b.second, h);
+  return h;
 }
 
 struct VecOp {
